@@ -312,9 +312,75 @@ fn auth_mutants(base: &Form) -> Vec<(String, Form)> {
     out
 }
 
+/// Transport faults inside a signed, compliant form: the body ends, or fails with an I/O error, after every byte offset.
+/// "An accepted upload ... content is exactly the bytes of the file part": whatever reaches the backend as an object write
+/// carries the complete file; a form that breaks off earlier is not an upload.
+fn part_faults(acc: &mut Acc, now: i64) -> usize {
+    let mut forms: Vec<(&str, Form)> = Vec::new();
+    forms.push(("base", base_form()));
+    {
+        let mut f = base_form();
+        f.file = (0..300u32).map(|i| if i % 7 == 0 { b'\r' } else if i % 7 == 1 { b'\n' } else { b'a' + (i % 26) as u8 }).collect();
+        forms.push(("file-of-300-bytes-with-crlf", f));
+    }
+    {
+        let mut f = base_form();
+        f.after.push(("submit".to_owned(), "Upload".to_owned()));
+        forms.push(("field-after-the-file", f));
+    }
+    let mut cases: Vec<(usize, usize, &'static str)> = Vec::new();
+    for (fi, (_, f)) in forms.iter().enumerate() {
+        let n = f.encode().len();
+        for t in 0..n {
+            for fault in ["ends", "io-error", "two-frames-then-io-error"] {
+                cases.push((fi, t, fault));
+            }
+        }
+    }
+    let n = cases.len();
+    par_items(acc, &cases, |a, ci, (fi, t, fault)| {
+        let (fname, form) = &forms[*fi];
+        let id = || format!("fault/{fname}/{fault}@{t}");
+        if !a.selected(&id) {
+            return;
+        }
+        a.eval();
+        a.nontrivial(fnv(id().as_bytes()));
+        set_clock_ms(now * 1000);
+        let (req, body) = form.request("/bkt", HOST);
+        let steps = match *fault {
+            "ends" => vec![Step::Data(body[..*t].to_vec())],
+            "io-error" => vec![Step::Data(body[..*t].to_vec()), Step::Error("connection reset by peer".into())],
+            _ => vec![Step::Data(body[..*t / 2].to_vec()), Step::Data(body[*t / 2..*t].to_vec()), Step::Error("connection reset by peer".into())],
+        };
+        let steps: Vec<Step> = steps.into_iter().filter(|s| !matches!(s, Step::Data(d) if d.is_empty())).collect();
+        let cfg = SvcCfg { keys: Some(vec![(AK.into(), SK.into()), (AK2.into(), SK2.into())]), access: AccessMode::Allow, ..Default::default() };
+        let (svc, log) = cfg.build();
+        let out = call(&svc, &req, body_from_steps(steps));
+        let calls = backend_calls(&log);
+        if matches!(out, CallOutcome::Panic(_) | CallOutcome::Hang) {
+            a.fail("C10/no-response", ci, id(), out.verdict(), json!({}));
+            return;
+        }
+        match calls.first() {
+            None => a.outcome("broken-off form: no object write"),
+            Some(bc) => match &bc.body {
+                Some(b) if b.end.is_ok() && b.bytes == form.file => a.outcome("form complete up to the end of the file part: the whole file stored"),
+                Some(b) if b.end.is_err() => a.outcome("broken-off form: the backend's body stream ends with an error"),
+                other => {
+                    a.outcome("BROKEN-OFF FORM STORED AS A COMPLETE OBJECT");
+                    a.fail("C10/broken-off-form-stored-as-a-complete-object", ci, id(), format!("the form body {} after {t} of {} bytes; the backend received an object write of {:?} bytes ending cleanly (the file has {} bytes); answer {}", if *fault == "ends" { "ended" } else { "failed" }, body.len(), other.as_ref().map(|b| b.bytes.len()), form.file.len(), out.verdict()), json!({"form": fname, "fault": fault, "offset": t}));
+                }
+            },
+        }
+    });
+    n
+}
+
 pub fn run(ctx: &Ctx) -> (Acc, Report) {
     let mut acc = ctx.acc();
     let now = amz_date_to_epoch(NOW).unwrap();
+    let n_faults = if ctx.replay.as_deref().is_none_or(|r| r.starts_with("fault/")) { part_faults(&mut acc, now) } else { 0 };
     let ax = axes();
     let n_axes = ax.len();
     // E1: 0, 1, 2 deviations. Pairs: every pair in thorough; in quick every pair where at least one axis is not a single-byte file
@@ -468,7 +534,7 @@ pub fn run(ctx: &Ctx) -> (Acc, Report) {
         level: "exploration",
         rule: format!("{n_variants} forms: a policy-signed base form with 0, 1 and 2 simultaneous deviations over {n_axes} axes (field-name case, x-amz-meta fields, header-equivalent fields, duplicate/unknown/after-file fields, keys, 3 boundaries, file contents incl. every single byte value, CR/LF runs and proper prefixes of the delimiter, 19 policies: expiry on both sides of the owned clock, eq/starts-with/bucket/content-length-range/meta conditions satisfied and violated, malformed documents) plus every single-character mutation, removal and emptying of policy, signature, credential, date and algorithm. Oracle: reference form verifier + field-wise comparison of the PutObjectInput at the backend."),
         exhaustive: true,
-        extra: json!({"forms": n_variants, "axes": n_axes}),
+        extra: json!({"forms": n_variants, "axes": n_axes, "transport_fault_cases": n_faults, "transport_fault_rule": "3 signed, compliant forms (base; 300-byte file with CR/LF; a field after the file) x body ends / I/O error / two frames then I/O error after every byte offset: whatever reaches the backend as an object write is the complete file"}),
         assumptions: vec![
             "clock owned through the verif-hooks seam (2024-02-29T12:01:00Z)".into(),
             "forms are delivered in one frame (framing is C09's subject)".into(),
